@@ -5,6 +5,8 @@ package environment
 //verif:pkg core/environment
 
 import (
+	"time"
+
 	"github.com/AliceO2Group/Control/core/workflow/callable"
 	vrt "github.com/AliceO2Group/Control/zz_vrt"
 )
@@ -164,4 +166,67 @@ func HarnessParseTriggerExpression() {
 		n, w := callable.ParseTriggerExpression(name + "+x1")
 		vrt.Assert(n == name && w == 0, "unparsable-weight-means-zero")
 	}
+}
+
+// A call whose await point belongs to a later transition, across a sequence that passes its trigger twice
+// before the await point is reached (CONFIGURE, RESET, CONFIGURE, START_ACTIVITY; or a CONFIGURE whose task
+// part fails and is retried, awaited at after_CONFIGURE): every start is a call of its own and each one is
+// collected at the await point - the failure of either start stops the state machine there.
+//verif:entry HarnessCallStartedTwice unwind=64 preempt=1 reach=reset-cycle,retried stub=github.com/AliceO2Group/Control/common/utils.TimeTrack nosched=github.com/AliceO2Group/Control/core/the.mu
+func HarnessCallStartedTwice() {
+	failing := vrt.IntRange("failing.start", 0, 2) // which start of the call returns an error (0 = none)
+	retry := vrt.Bool("retry.scenario")
+	rec := &fenvRec{}
+	started := 0
+	rec.onCall = func(c *callable.Call) error {
+		rec.mu.Lock()
+		started++
+		mine := started
+		rec.mu.Unlock()
+		if mine == failing {
+			return failingCall(c)
+		}
+		return nil
+	}
+	await := "before_START_ACTIVITY"
+	if retry {
+		await = "after_CONFIGURE"
+	}
+	env := fenvNew(&fenvConf{}, rec, "DEPLOYED", []fenvHook{{name: "a", trigger: "before_CONFIGURE", await: await, critical: true}})
+	var last error
+	if retry {
+		first := true
+		err := env.TryTransition(fenvTransition{name: "CONFIGURE", rec: rec, fail: func() bool { f := first; first = false; return f }})
+		vrt.Assert(err != nil && env.CurrentState() == "DEPLOYED", "failed-task-transition-leaves-the-source-state")
+		vrt.WaitQuiescent(20 * time.Millisecond) // the first start has run and waits to be collected
+		last = env.TryTransition(fenvTransition{name: "CONFIGURE", rec: rec})
+		vrt.Reach("retried")
+	} else {
+		vrt.Assert(env.TryTransition(fenvTransition{name: "CONFIGURE", rec: rec}) == nil, "configure-succeeds")
+		vrt.Assert(env.TryTransition(fenvTransition{name: "RESET", rec: rec}) == nil, "reset-succeeds")
+		vrt.WaitQuiescent(20 * time.Millisecond)
+		vrt.Assert(env.TryTransition(fenvTransition{name: "CONFIGURE", rec: rec}) == nil, "second-configure-succeeds")
+		last = env.TryTransition(fenvTransition{name: "START_ACTIVITY", rec: rec})
+		vrt.Reach("reset-cycle")
+	}
+	vrt.Assert(rec.count("launch:root.a") == 2, "each-pass-of-the-trigger-starts-the-call")
+	vrt.Assert(rec.count("call:root.a:start") == 2 && rec.count("call:root.a:end") == 2, "both-starts-ran")
+	if retry {
+		// after_CONFIGURE is past the point of no return: a failure is reported, the state is kept
+		vrt.Assert((last != nil) == (failing != 0), "every-started-call-is-collected-at-its-await-point")
+	} else {
+		vrt.Assert((last != nil) == (failing != 0), "every-started-call-is-collected-at-its-await-point")
+		if failing != 0 {
+			vrt.Assert(env.CurrentState() == "CONFIGURED", "failed-critical-call-stops-the-state-machine-at-its-await-point")
+		} else {
+			vrt.Assert(env.CurrentState() == "RUNNING", "nothing-failed-so-the-run-starts")
+		}
+	}
+	left := 0
+	for _, byWeight := range env.callsPendingAwait {
+		for _, calls := range byWeight {
+			left += len(calls)
+		}
+	}
+	vrt.Assert(left == 0, "every-awaited-call-is-collected-exactly-once")
 }
